@@ -125,6 +125,41 @@ impl Serializer {
         r is Ok ==> added(*old(self), *final(self)).len() == i64_size(old(self).non_native_type, old(self).is_array_elem, v),   // [C20.size.i64-written]
 //@@ end
 
+//@@ fn file=serde_amqp/src/ser.rs impl=`~ser::Serializer for &'a mut Serializer<W>` name=serialize_none
+//@@ selfmut
+//@@ ret Result<(), Error>
+//@@ spec
+    ensures
+        final(self).is_array_elem == old(self).is_array_elem,
+        r is Ok ==> appended(*old(self), *final(self)),
+        r is Ok && !(old(self).is_array_elem is OtherElement) ==> added(*old(self), *final(self)) =~= seq![0x40u8],          // [C05.null.encoding] null is the constructor 0x40 and no data octets
+        r is Ok && old(self).is_array_elem is OtherElement ==> added(*old(self), *final(self)) =~= Seq::<u8>::empty(),      // [C05.null.array-later-element] as a second or later element of an array (whose element constructor 0x40 is written once, with the first element) a null occupies ZERO octets -- which is also what this crate's decoder reads for it
+//@@ end
+
+//@@ fn file=serde_amqp/src/ser.rs impl=`~ser::Serializer for &'a mut Serializer<W>` name=serialize_unit
+//@@ selfmut
+//@@ ret Result<(), Error>
+//@@ spec
+    ensures
+        final(self).is_array_elem == old(self).is_array_elem,
+        r is Ok ==> appended(*old(self), *final(self)),
+        r is Ok && !(old(self).is_array_elem is OtherElement) ==> added(*old(self), *final(self)) =~= seq![0x40u8],          // [C05.null.encoding]
+        r is Ok && old(self).is_array_elem is OtherElement ==> added(*old(self), *final(self)) =~= Seq::<u8>::empty(),      // [C05.null.array-later-element]
+//@@ end
+
+//@@ fn file=serde_amqp/src/ser.rs impl=`~ser::Serializer for &'a mut Serializer<W>` name=serialize_bool
+//@@ selfmut
+//@@ ret Result<(), Error>
+//@@ subst `.map_err(Into::into)` => `.map_err(|e: IoError| -> (o: Error) { Error::Io(e) })` rule=optional-R17
+//@@ spec
+    ensures
+        final(self).is_array_elem == old(self).is_array_elem,
+        r is Ok ==> appended(*old(self), *final(self)),
+        r is Ok && old(self).is_array_elem is False ==> added(*old(self), *final(self)) =~= seq![if v { 0x41u8 } else { 0x42u8 }],                       // [C05.bool.encoding] true / false constructors
+        r is Ok && old(self).is_array_elem is FirstElement ==> added(*old(self), *final(self)) =~= seq![0x56u8, if v { 1u8 } else { 0u8 }],             // [C05.bool.array-element] inside an array: the one-octet form 0x56, constructor once
+        r is Ok && old(self).is_array_elem is OtherElement ==> added(*old(self), *final(self)) =~= seq![if v { 1u8 } else { 0u8 }],
+//@@ end
+
 //@@ fn file=serde_amqp/src/ser.rs impl=`~ser::Serializer for &'a mut Serializer<W>` name=serialize_bytes
 //@@ selfmut
 //@@ ret Result<(), Error>
